@@ -84,6 +84,13 @@ Theorem wf_check_soundness : forall d, wf_check d = [] -> WF d.
 Proof. exact wf_check_sound. Qed.
 Print Assumptions wf_check_soundness.
 
+(* ... and for the link clauses (parent/child/sibling pointers, ranks, first/last child, children[], cousins,
+   logical indexes, level membership): Topo/WFLinks.v *)
+From HV Require Import Topo.WFLinks.
+Theorem wf_check_soundness_links : forall d, wf_check d = [] -> WFLinks d.
+Proof. exact wf_check_sound_links. Qed.
+Print Assumptions wf_check_soundness_links.
+
 (* Non-vacuity: the smallest legal topology (Machine > PU, one NUMA node
    attached to the Machine) passes the checker, hence satisfies WF. *)
 Definition ex_set1 : option bset := Some (bs_single 0).
@@ -104,8 +111,8 @@ Definition ex_dump : dump :=
     (map (fun ty => match special_depth ty with Some sd => sd
                     | None => if ty =? HWLOC_OBJ_MACHINE then 0%Z else if ty =? HWLOC_OBJ_PU then 1%Z else HWLOC_TYPE_DEPTH_UNKNOWN end) all_types)
     [ex_machine; ex_pu; ex_numa].
-Example wf_example : wf_check ex_dump = [] /\ WF ex_dump.
-Proof. assert (H : wf_check ex_dump = []) by (vm_compute; reflexivity). split; [exact H|apply wf_check_sound, H]. Qed.
+Example wf_example : wf_check ex_dump = [] /\ WF ex_dump /\ WFLinks ex_dump.
+Proof. assert (H : wf_check ex_dump = []) by (vm_compute; reflexivity). split; [exact H|split; [apply wf_check_sound, H|apply wf_check_sound_links, H]]. Qed.
 
 (* ---------- set post-processing of hwloc_discover (model: Topo/Sets.v, tied to the
    C code at the phase boundaries 1 -> 2 and 5 -> final on every loaded topology) ---------- *)
